@@ -496,6 +496,9 @@ func (vt *Model) print(seq ansi.Print) {
 	}
 	if vt.cursor.col >= vt.margin.right+1 && vt.mode.decawm {
 		vt.lastCol = true
+		// Wide characters don't push the cursor further than the column
+		// after the right margin
+		vt.cursor.col = vt.margin.right + 1
 	}
 }
 
